@@ -205,11 +205,14 @@ class Trace:
                 self.in_ctx, self.in_write, self.entered_once, self.entered_explicitly = True, self.armed, True, True
                 cmd = [Sym("mode.op"), Sym("enter")]
         elif kind in ("exit", "exit-exc"):
-            if kind == "exit":
-                self.t.__exit__(None, None, None)
-            else:
-                err = RuntimeError("boom")
-                self.t.__exit__(RuntimeError, err, None)
+            try:
+                if kind == "exit":
+                    self.t.__exit__(None, None, None)
+                else:
+                    err = RuntimeError("boom")
+                    self.t.__exit__(RuntimeError, err, None)
+            except Exception as e:          # (leaving a context is not expected to raise; if it does, that is what is observed)
+                raised = e
             self.in_ctx = self.in_write = self.armed = False
             cmd = [Sym("mode.op"), Sym("exit")]
         elif kind == "read":
@@ -309,7 +312,7 @@ def mutator_op(rng, name, present):
     return (("set", prop), C.gen_spec(rng, C.SETTERS[prop]))
 
 
-def start_with(rng, kinds, age=0, foreign=False):
+def start_with(rng, kinds, age=0, foreign=False, n=14):
     """the file the traces start from. age: its header and table dates lie that many seconds in the past (an archived file: years) or
     in the future (negative); foreign: table order differs from storage order and junk lies between the blocks"""
     blocks = []
@@ -318,8 +321,8 @@ def start_with(rng, kinds, age=0, foreign=False):
         blocks.append(dict(type=A.BLOCKTYPE[kind], fmt=A.fmt_of(kind, v), payload=A.encode(A.build(kind, v)), cdate=C.T0 - 50 - age, mdate=C.T0 - 40 - age,
                            adate=C.T0 - 3 - age, comment="pre"))
     if foreign:
-        return C.mkfile_gappy(14, blocks, [0, 7, 300, 64], now=C.T0 - age, order=[2, 0, 1])
-    return C.mkfile(14, blocks, now=C.T0 - age)
+        return C.mkfile_gappy(n, blocks, [0, 7, 300, 64], now=C.T0 - age, order=[2, 0, 1])
+    return C.mkfile(n, blocks, now=C.T0 - age)
 
 
 def run(ctx):
@@ -332,10 +335,14 @@ def run(ctx):
         # the same file as it is found years later (every date in header and table long past), as other software wrote it, or stamped
         # in the future (a clock that was wrong): nothing in C08 depends on WHEN a file was written or by whom
         aged = start_with(rng, ["data3d", "events", "emg"], age=86400 * 3210, foreign=True)
-        others = [aged, start_with(rng, ["data3d", "events", "emg"], age=86400 * 400), start_with(rng, ["data3d", "events", "emg"], age=-86400 * 2, foreign=True)]
+        others = [aged, start_with(rng, ["data3d", "events", "emg"], age=86400 * 400), start_with(rng, ["data3d", "events", "emg"], age=-86400 * 2, foreign=True),
+                  # tables of other lengths than the 14 slots the library creates (foreign files): 4, 15, 20, 100 slots
+                  start_with(rng, ["data3d", "events", "emg"], n=4), start_with(rng, ["data3d", "events", "emg"], n=15, foreign=True),
+                  start_with(rng, ["data3d", "events", "emg"], n=20), start_with(rng, ["data3d", "events", "emg"], n=100, age=86400 * 30)]
+        small = start_with(rng, ["data3d", "events", "emg"], n=5)      # a 5-slot table: the data end before byte 4096
         present = {5, 16, 11}
         # exhaustive matrix
-        for (mode, prefix), start in [(mp, st) for mp in MODES.items() for st in (start0, aged)]:
+        for (mode, prefix), start in [(mp, st) for mp in MODES.items() for st in (start0, aged, small)]:
             for mname in MUTATORS:
                 tr = Trace(start, wd, rng)
                 for p in prefix:
@@ -344,14 +351,14 @@ def run(ctx):
                 tr.do(("mut", cop, spec))
                 tr.do(("read", "has_events", True, False))
                 tr.close()
-                traces.append((tr, f"matrix[{mode} x {mname}]" + (" on the aged foreign file" if start is aged else ""), ("matrix", mode)))
+                traces.append((tr, f"matrix[{mode} x {mname}]" + (" on the aged foreign file" if start is aged else " on a 5-slot file" if start is small else ""), ("matrix", mode)))
             for rname, impl, needs in READERS:
                 tr = Trace(start, wd, rng)
                 for p in prefix:
                     tr.do((p, 2) if p == "enter-interrupted" else (p,))
                 tr.do(("read", rname, impl, needs))
                 tr.close()
-                traces.append((tr, f"matrix[{mode} x reader {rname}]" + (" on the aged foreign file" if start is aged else ""), ("matrix-readers", mode)))
+                traces.append((tr, f"matrix[{mode} x reader {rname}]" + (" on the aged foreign file" if start is aged else " on a 5-slot file" if start is small else ""), ("matrix-readers", mode)))
         start = start0
         # seeded interleavings
         for k in range(ctx.n(150, 8000)):
